@@ -15,6 +15,7 @@ from env import import_dit
 
 ALWAYS = ['PID_WB', 'PID_MMI', 'PID_GK', 'PID_CCS', 'PID_PM', 'PID_RAV', 'PID_RDR', 'PID_GH']   # defined on every antichain
 FAST3 = ['PID_WB', 'PID_MMI', 'PID_GK', 'PID_CCS', 'PID_PM', 'PID_RDR']          # fast enough for three sources
+NOT_EQUIVARIANT_BY_DESIGN = []
 TWO_ONLY = ['PID_RAV', 'PID_GH', 'PID_MES', 'PID_RR', 'PID_CT', 'PID_IG', 'PID_Proj', 'PID_BROJA', 'PID_dep', 'PID_RA']
 
 
@@ -38,12 +39,21 @@ class C17(object):
         n_cases = 60 if tier == 'quick' else 900
         gates = {'xor': ['000', '011', '101', '110'], 'and': ['000', '010', '100', '111'],
                  'rdn': ['000', '111'], 'unq': ['000', '011', '102', '113'], 'copy': ['000', '011', '102', '113'],
-                 'xor3': ['0000', '0011', '0101', '0110', '1001', '1010', '1100', '1111']}
+                 'xor3': ['0000', '0011', '0101', '0110', '1001', '1010', '1100', '1111'],
+                 # cascades X1 -> X0 -> T and T = X0 with X1 a noisy copy (one source has the only direct path)
+                 'cascade': ['000', '010', '111', '101'], 'cascade2': ['000', '100', '111', '011'],
+                 'cascade3': ['000', '001', '010', '011', '100', '101', '110', '111'],
+                 # target = concatenation of three bits
+                 'cat3': ['0000', '0011', '0102', '0113', '1004', '1015', '1106', '1117']}
         for i in range(n_cases):
             ns = rng.choice([2, 2, 3])
             style = rng.choice(['random', 'random', 'sparse', 'gate'])
+            if i % 10 == 3:
+                style = 'gate'
             if style == 'gate':
                 name = rng.choice(sorted(gates))
+                if i % 10 == 3:
+                    name = ['cascade', 'cascade3', 'cat3', 'cascade2'][(i // 10) % 4]
                 outs = [[int(ch) for ch in o] for o in gates[name]]
                 ns = len(outs[0]) - 1
                 pmf = [Fraction(1, len(outs))] * len(outs)
@@ -63,6 +73,18 @@ class C17(object):
             classes = list(FAST3)
             if ns == 2:
                 classes += TWO_ONLY if (tier == 'thorough' or rng.random() < 0.5) else ['PID_RAV', 'PID_RR', 'PID_CT', 'PID_IG']
+            if ns == 3 and rng.random() < 0.25:
+                classes = ['PID_CT', 'PID_Proj']       # incomplete decompositions on three sources
+            if style == 'gate' and name.startswith('cascade'):
+                # unequal weights so that the noisy link is really noisy
+                pmf = [Fraction(3, 8), Fraction(1, 8), Fraction(3, 8), Fraction(1, 8)]
+                if name == 'cascade3':
+                    # X1 -> X0 -> T with noisy links: p = 1/2 * (9/10 if x0 = x1 else 1/10) * (4/5 if t = x0 else 1/5)
+                    pmf = [Fraction(1, 2) * (Fraction(9, 10) if o[0] == o[1] else Fraction(1, 10))
+                           * (Fraction(4, 5) if o[2] == o[0] else Fraction(1, 5)) for o in outs]
+                classes = ['PID_CT', 'PID_CT', 'PID_CT', 'PID_WB', 'PID_MMI', 'PID_RR', 'PID_IG', 'PID_MES']
+            if style == 'gate' and name == 'cat3':
+                classes = ['PID_CT', 'PID_CT', 'PID_Proj', 'PID_WB']
             c = {'outs': outs, 'pmf': [str(p) for p in pmf], 'ns': ns, 'cls': rng.choice(classes),
                  'addr': rng.choice(['default', 'explicit', 'names', 'names-default']),
                  'dense': rng.random() < 0.3, 'style': style, 'tw': 1, 'pre': None}
@@ -261,7 +283,7 @@ class C17(object):
                 r.oracle_fail = '%s has a negative atom: %s' % (name, min(pis.values()))
                 return
         # ---- permutation equivariance
-        if case['cls'] in ALWAYS and not case.get('pre'):
+        if (case['cls'] in ALWAYS or ns == 2) and not case.get('pre') and case['cls'] not in NOT_EQUIVARIANT_BY_DESIGN:
             for perm in itertools.permutations(range(ns)):
                 if list(perm) == list(range(ns)):
                     continue
@@ -272,7 +294,9 @@ class C17(object):
                     img = tuple(sorted((tuple(sorted(inv[v] for v in s)) for s in x), key=lambda s: (len(s), s)))
                     nd2 = [n2 for n2 in p2._lattice if keyof(self.node_key(n2, case)) == img][0]
                     a, b = reds[x], float(p2.get_red(nd2))
-                    ptol = 1e-6 if case['cls'] in ('PID_WB', 'PID_MMI', 'PID_GK', 'PID_PM', 'PID_RDR') else 5e-4
+                    ptol = 1e-6 if case['cls'] in ('PID_WB', 'PID_MMI', 'PID_GK', 'PID_PM', 'PID_RDR', 'PID_CT', 'PID_RR') else 5e-4
+                    if case['cls'] in ('PID_BROJA', 'PID_dep', 'PID_RA', 'PID_MES', 'PID_IG', 'PID_Proj'):
+                        ptol = 5e-3     # numerical optimisers inside
                     if case['cls'] == 'PID_GH':
                         ptol = 2e-2     # its optimiser is randomised: the same input repeats only to about 3e-3
                     if not (abs(a - b) <= ptol or (math.isnan(a) and math.isnan(b))):
